@@ -153,6 +153,8 @@ def execute(case, raise_at=None, cancel_at=None, susp=0, raise_type="Exception",
             return _uid(await obj.__anext__())
         except StopAsyncIteration:
             return STOP
+        except (LookupError, ValueError) as exc:  # the tool's own failure (failing callable, zip(strict=True))
+            return ("raised", type(exc).__name__)
 
     async def run_block(block, source, depth):
         info["max_depth"] = max(info["max_depth"], depth)
@@ -202,10 +204,12 @@ def execute(case, raise_at=None, cancel_at=None, susp=0, raise_type="Exception",
                                             want = _uid(next(sit))
                                         except StopIteration:
                                             want = STOP
+                                        except (LookupError, ValueError) as exc:
+                                            want = ("raised", type(exc).__name__)
                                         if got != want:
                                             fail("scoped_iter/tool-items", f"{op}: tool gave {got}, stdlib on the shared iterator {want}")
                                             break
-                                    if got == STOP:
+                                    if got == STOP or (isinstance(got, tuple) and got[:1] == ("raised",)):
                                         break
                             finally:
                                 if ending == "abandon":
